@@ -81,6 +81,14 @@ def apply_edits(text, edits):
         if len(ms) != 1:
             return None, 'anchor %r matched %d times' % (old[:50], len(ms))
         m = ms[0]
+        # the anchor is matched from its first to its last token: leading / trailing blank space that `old` and `new` share is not part of
+        # the replacement
+        lead = old[:len(old) - len(old.lstrip())]
+        if lead and new.startswith(lead):
+            new = new[len(lead):]
+        trail = old[len(old.rstrip()):]
+        if trail and new.endswith(trail):
+            new = new[:len(new) - len(trail)]
         text = text[:m.start()] + new + text[m.end():]
     return text, None
 
